@@ -43,9 +43,13 @@ NF_BAD = rs("t/nf", [["record", "sub"]], [F_BAD])
 NF_OK = rs("t/nf", [["record", "sub"]], [F_OK])
 F2_BAD = dict(rs("t/f2", [["uint32[]", "xs"]], ["[1]"]), mutate=[["xs", "'not a number'"]])  # refused inside Record._pack()
 F2_OK = rs("t/f2", [["uint32[]", "xs"]], ["[2]"])
+J_BAD = rs("t/j", [["varint", "n"]], ["10**5000"])  # json.dumps refuses it (int -> str digit limit); the binary packer takes it
+J_OK = rs("t/j", [["varint", "n"]], ["5"])
+NJ_BAD = rs("t/nj", [["record", "sub"]], [J_BAD])
+NJ_OK = rs("t/nj", [["record", "sub"]], [J_OK])
 U1 = rs("u/v_w", [["string", "s"]], ["'one'"])  # same Python-safe class name as U2, same fields
 U2 = rs("u/v/w", [["string", "s"]], ["'two'"])
-KINDS = {"F2_BAD": F2_BAD, "F2_OK": F2_OK, "U1": U1, "U2": U2, "G_AB": G_AB, "G_ALT": G_ALT, "G_AA2": G_AA2, "F_BAD": F_BAD, "F_OK": F_OK, "NF_BAD": NF_BAD, "NF_OK": NF_OK, "A": A, "B": B, "A2": A2, "C": C, "N_A": N_A, "N_X": N_X, "G": G, "G_Y": G_Y, "G_B": G_B, "N_B": N_B}
+KINDS = {"J_BAD": J_BAD, "J_OK": J_OK, "NJ_BAD": NJ_BAD, "NJ_OK": NJ_OK, "F2_BAD": F2_BAD, "F2_OK": F2_OK, "U1": U1, "U2": U2, "G_AB": G_AB, "G_ALT": G_ALT, "G_AA2": G_AA2, "F_BAD": F_BAD, "F_OK": F_OK, "NF_BAD": NF_BAD, "NF_OK": NF_OK, "A": A, "B": B, "A2": A2, "C": C, "N_A": N_A, "N_X": N_X, "G": G, "G_Y": G_Y, "G_B": G_B, "N_B": N_B}
 
 CONF = {}  # set in main(): {"packer": "binary"|"json", "m": int, "kinds": [...]}
 
@@ -59,6 +63,7 @@ def kinds_for(packer, names):
 
 CORE = ["A", "B", "A2", "C", "N_A", "N_X", "G", "G_Y", "G_B", "N_B", "G_AB"]
 SPECIAL = ["A", "C", "G", "G_ALT", "G_AA2", "F_BAD", "F_OK", "NF_BAD", "NF_OK", "F2_BAD", "F2_OK", "U1", "U2"]
+JSPECIAL = ["A", "C", "J_BAD", "J_OK", "NJ_BAD", "NJ_OK", "F_OK", "U1", "U2", "N_X"]
 
 
 def generic_canon(obj, depth=0):
@@ -547,6 +552,7 @@ def main(tier, seed, workers=None):
         ("binary", 2, ["A", "A2", "B", "N_X", "G_Y"] if not thorough else ["A", "A2", "B", "C", "N_A", "N_X", "G", "G_Y"], 14),
         ("json", 1, kinds_for("json", CORE), 12),
         ("json", 1, kinds_for("json", SPECIAL), 12),
+        ("json", 1, JSPECIAL, 12),
         ("json", 2, ["A", "A2", "B", "N_X"] if not thorough else kinds_for("json", ["A", "A2", "B", "C", "N_A", "N_X", "N_B"]), 14),
     ]
     if thorough:
